@@ -10,23 +10,24 @@ BASE_NOTE = ('Trusted base: Coq 8.16.1 kernel (full .vo builds, vm_compute for c
              '--features verif, the OCaml driver and lib/vf comparison code; hand-written Gallina model of the Rust passes, '
              'tied to /repo by differential execution on every run (T1/T2), not verified against the Rust directly.')
 
-CHECKS = {
-    'C11': dict(
-        text=('Theorem C11_choice (Props/C11.v): for every grammar whose definitions the checker accepts, every shell and every '
-              'reference <X>, the node the Gallina model of specialize_nonterminals leaves in its place means exactly what '
-              'Spec.Choice.spec prescribes (<X@S>, else plain <X>, else built-in for PATH/DIRECTORY, else any word; other shells '
-              'ignored). The model is tied to src/check.rs by running the extracted model and ValidGrammar::from_grammar on the '
-              'same parse trees (exact comparison of validated tree, warning maps, error variant+spans) and the built-in table is '
-              'regenerated from the source on every run; the implementation is additionally judged directly against the extracted '
-              'specification on an exhaustive family (all 32 definition subsets x 3 names x 5 reference positions x 4 shells), '
-              'including the command table handed to the four emitters.'),
-        design='6 C11', technique='Coq theorem (model = spec) + extracted-model/implementation correspondence (exhaustive family) + T3 regenerated constants'),
-}
-
 NOT_YET = {}
 
 
+def collect_checks():
+    """Every lib/vf/checks/cXX.py that defines MANIFEST = dict(text=, design=, technique=[, note=])."""
+    import importlib
+    out = {}
+    d = os.path.join(os.path.dirname(os.path.abspath(__file__)), 'checks')
+    for f in sorted(os.listdir(d)):
+        if f.startswith('c') and f.endswith('.py'):
+            mod = importlib.import_module('vf.checks.' + f[:-3])
+            if hasattr(mod, 'MANIFEST'):
+                out[f[:-3].upper()] = mod.MANIFEST
+    return out
+
+
 def main():
+    CHECKS = collect_checks()
     props = [json.loads(l) for l in open(os.path.join(paths.ROOT, 'properties.jsonl'))]
     checks = []
     na = []
